@@ -121,6 +121,9 @@ func cmdVerify(fn, lemma string, dump bool, dumpObl string, timeout int) int {
 					continue
 				}
 				obls = append(obls, o)
+				if v := lemmaVacuity(o, l); v != nil {
+					obls = append(obls, v)
+				}
 			}
 		}
 	}
@@ -160,6 +163,16 @@ func obligationOK(o *Obligation) bool {
 		return o.Res.Status != "unsat" && o.Res.Status != "error"
 	}
 	return o.Res.Status == "unsat"
+}
+
+// lemmaVacuity: the hypotheses of a lemma must be satisfiable together with the axioms (a lemma whose
+// hypotheses are contradictory proves nothing and hides mistakes in definitions).
+func lemmaVacuity(o *Obligation, l *Lemma) *Obligation {
+	if len(o.Hyps) == 0 || l.Canary != "" {
+		return nil
+	}
+	return &Obligation{Func: o.Func, Name: o.Name + "#vacuity", Kind: "vacuity", Hyps: append([]*Term(nil), o.Hyps...), Goal: False, Mode: o.Mode, ExpectSat: true,
+		Text: "hypotheses of the lemma are satisfiable", Pos: o.Pos, LemmaIndex: o.LemmaIndex}
 }
 
 func lemmaObligation(u *Universe, p *Prelude, l *Lemma, idx int) (o *Obligation, err error) {
